@@ -17,6 +17,7 @@ import (
 	"github.com/pbenner/autodiff/special"
 	"github.com/pbenner/autodiff/statistics"
 	"github.com/pbenner/autodiff/statistics/scalarDistribution"
+	"github.com/pbenner/autodiff/statistics/vectorDistribution"
 )
 
 type request struct {
@@ -115,6 +116,8 @@ func answer(req request) (resp map[string]interface{}) {
 		return doExpr(req)
 	case "dist":
 		return doDist(req)
+	case "vdist":
+		return doVDist(req)
 	}
 	return map[string]interface{}{"err": "unknown request kind " + req.K}
 }
@@ -620,6 +623,133 @@ func doDist(req request) map[string]interface{} {
 			continue
 		}
 		out[i] = r.GetFloat64()
+	}
+	res := map[string]interface{}{"r": hexs(out)}
+	if errs != "" {
+		res["evalerr"] = errs
+	}
+	return res
+}
+
+// vector distributions and composed scalar densities (C14)
+// family: vnormal | vt | iid:<family> | id:<f1>|<f2>.. | mix:<f1>|<f2>..  (ints: parameter counts of the parts)
+func doVDist(req request) map[string]interface{} {
+	p := unhexs(req.Params)
+	ptype := req.Type
+	if ptype == "" {
+		ptype = "Float64"
+	}
+	t := scalarType(ptype)
+	wrap := ""
+	family := req.Family
+	for _, w := range []string{"clone:", "setget:"} {
+		if strings.HasPrefix(family, w) {
+			wrap, family = w[:len(w)-1], family[len(w):]
+		}
+	}
+	n := req.Order // dimension
+	vec := func(v []float64) Vector {
+		r := NullDenseVector(t, len(v))
+		for i := range v {
+			r.At(i).SetFloat64(v[i])
+		}
+		return r
+	}
+	mat := func(v []float64, n int) Matrix {
+		r := NullDenseMatrix(t, n, n)
+		for i := 0; i < n; i++ {
+			for j := 0; j < n; j++ {
+				r.At(i, j).SetFloat64(v[i*n+j])
+			}
+		}
+		return r
+	}
+	parts := func(spec string, p []float64) ([]statistics.ScalarPdf, error) {
+		names := strings.Split(spec, "|")
+		r := make([]statistics.ScalarPdf, len(names))
+		for i, name := range names {
+			k := req.Ints[i]
+			d, err := construct(name, ptype, p[:k])
+			if err != nil {
+				return nil, err
+			}
+			r[i] = d
+			p = p[k:]
+		}
+		return r, nil
+	}
+	var vd statistics.VectorPdf
+	var sd statistics.ScalarPdf
+	var err error
+	switch {
+	case family == "vnormal":
+		vd, err = vectorDistribution.NewNormalDistribution(vec(p[:n]), mat(p[n:], n))
+	case family == "vt":
+		vd, err = vectorDistribution.NewTDistribution(NewScalar(t, p[0]), vec(p[1:1+n]), mat(p[1+n:], n))
+	case strings.HasPrefix(family, "iid:"):
+		var d statistics.ScalarPdf
+		if d, err = construct(family[4:], ptype, p); err == nil {
+			vd, err = vectorDistribution.NewScalarIid(d, n)
+		}
+	case strings.HasPrefix(family, "id:"):
+		var ds []statistics.ScalarPdf
+		if ds, err = parts(family[3:], p); err == nil {
+			vd, err = vectorDistribution.NewScalarId(ds...)
+		}
+	case strings.HasPrefix(family, "mix:"):
+		k := len(strings.Split(family[4:], "|"))
+		var ds []statistics.ScalarPdf
+		if ds, err = parts(family[4:], p[k:]); err == nil {
+			sd, err = scalarDistribution.NewMixture(vec(p[:k]), ds)
+		}
+	default:
+		return map[string]interface{}{"err": "unknown family " + family}
+	}
+	if err != nil {
+		return map[string]interface{}{"rejected": err.Error()}
+	}
+	switch wrap {
+	case "clone":
+		if vd != nil {
+			vd = vd.CloneVectorPdf()
+		} else {
+			sd = sd.CloneScalarPdf()
+		}
+	case "setget":
+		if vd != nil {
+			err = vd.SetParameters(vd.GetParameters())
+		} else {
+			err = sd.SetParameters(sd.GetParameters())
+		}
+		if err != nil {
+			return map[string]interface{}{"err": "SetParameters(GetParameters()) failed: " + err.Error()}
+		}
+	}
+	args := unhexs(req.Args)
+	xs := unhexs(req.X)
+	dim := n
+	if sd != nil {
+		dim = 1
+	}
+	out := make([]float64, 0, len(xs)/dim)
+	errs := ""
+	for i := 0; i+dim <= len(xs); i += dim {
+		r := NullScalar(t)
+		if len(args) > 0 {
+			r.SetFloat64(args[0])
+		}
+		var err error
+		if vd != nil {
+			err = vd.LogPdf(r, NewDenseFloat64Vector(xs[i:i+dim]))
+		} else {
+			err = sd.LogPdf(r, ConstFloat64(xs[i]))
+		}
+		if err != nil {
+			errs = err.Error()
+			out = append(out, math.NaN())
+			continue
+		}
+		out = append(out, r.GetFloat64())
 	}
 	res := map[string]interface{}{"r": hexs(out)}
 	if errs != "" {
